@@ -1579,3 +1579,221 @@ func ruleLoopExhaust(prop string) ruleFn {
 		}
 	}
 }
+
+// IDX-REST (C01): the trie walk never forgets the pairs that remain.
+func ruleIdxRest(w *World, r *Report) {
+	r.Rule("IDX-REST", "both walks over the pattern trie (PatternIndex.mod, the writer, and searchPairs, the reader) consume the sorted key/value pairs head first; every recursive call continues with a list that data-depends on the remaining pairs (`pairs[1:]`, possibly with the pairs of a nested map or array put in front): a recursive call that is handed only the nested pairs drops the rest of the outer pattern, so a rule that constrains a nested map *and* a later sibling key is filed (or looked for) under the wrong node and never becomes a candidate", 4)
+	for _, name := range []string{"mod", "searchPairs"} {
+		fn := w.Method("core", "PatternIndex", name)
+		var pairs *ssa.Parameter
+		for _, p := range fn.Params {
+			if _, ok := p.Type().Underlying().(*types.Slice); ok {
+				pairs = p
+			}
+		}
+		if pairs == nil {
+			undecided("IDX-REST: %s has no slice parameter", fname(fn))
+		}
+		isRest := func(v ssa.Value) bool {
+			sl, ok := v.(*ssa.Slice)
+			if !ok || !valueIs(sl.X, pairs) || sl.Low == nil {
+				return false
+			}
+			c, ok := sl.Low.(*ssa.Const)
+			return ok && c.Value != nil && c.Int64() >= 1
+		}
+		n := 0
+		allInstrs(fn, func(in ssa.Instruction) {
+			c := callOf(in)
+			if c == nil || c.StaticCallee() != fn {
+				return
+			}
+			if _, isDefer := in.(*ssa.Defer); isDefer {
+				return
+			}
+			var arg ssa.Value
+			for _, a := range c.Args {
+				if types.Identical(a.Type(), pairs.Type()) {
+					arg = a
+				}
+			}
+			if arg == nil {
+				return
+			}
+			n++
+			key := "fn=" + fname(fn) + " call#" + itoa(n)
+			if dependsOnFS(arg, isRest) {
+				r.ok("IDX-REST", key, w.PosOf(in), "continues with the remaining pairs")
+			} else {
+				r.violation("IDX-REST", "fn="+fname(fn), w.PosOf(in), "this recursive call is handed a list of pairs that does not include the remaining pairs of the pattern: the outer keys after a nested value are dropped")
+			}
+		})
+		if n == 0 {
+			r.exempt("IDX-REST", "fn="+fname(fn), w.Pos(fn.Pos()), "not recursive any more: shape not recognised, not decided")
+		}
+	}
+}
+
+// IDX-RESET (C01): wiping the fact map wipes the indexes with it.
+func ruleIdxReset(w *World, r *Report) {
+	r.Rule("IDX-RESET", "sibling fields of IndexedState are reset together: a function that stores a fresh (empty) map into IdToFact — the wholesale removal used by Clear, Delete and construction — also stores a fresh RuleIndex and a fresh FactIndex on every path through that store (or all its callers inside the type do): a rule index that survives a Clear proposes ids that no longer exist, and the whole lookup of a matching event fails with `lost rule`", 1)
+	n := w.Named("core", "IndexedState")
+	owner := typeKey(n)
+	methods := w.MethodsOf(n)
+	if f := w.TryFunc("core", "NewIndexedState"); f != nil {
+		methods = append(methods, f)
+	}
+	freshStore := func(in ssa.Instruction, field string) bool {
+		st, ok := storesToField(in, owner, field)
+		if !ok {
+			return false
+		}
+		switch x := st.Val.(type) {
+		case *ssa.MakeMap, *ssa.Alloc:
+			return true
+		case *ssa.Call:
+			_ = x
+			return true // a constructor call (NewPatternIndex, NewTermIndex)
+		}
+		return false
+	}
+	resets := func(fn *ssa.Function, field string) bool {
+		found := false
+		allInstrs(fn, func(in ssa.Instruction) {
+			if freshStore(in, field) {
+				found = true
+			}
+		})
+		return found
+	}
+	count := 0
+	for _, fn := range methods {
+		var wipes []ssa.Instruction
+		allInstrs(fn, func(in ssa.Instruction) {
+			if st, ok := storesToField(in, owner, "IdToFact"); ok {
+				if _, isMk := st.Val.(*ssa.MakeMap); isMk {
+					wipes = append(wipes, in)
+				}
+			}
+		})
+		if len(wipes) == 0 {
+			continue
+		}
+		count++
+		key := "fn=" + fname(fn)
+		missing := ""
+		for _, field := range []string{"RuleIndex", "FactIndex"} {
+			for _, wp := range wipes {
+				isReset := func(x ssa.Instruction) bool { return freshStore(x, field) }
+				// on every path through the wipe: a reset before it or after it
+				before, _ := reach(fn, nil, func(x ssa.Instruction) bool { return x == wp }, isReset, nil)
+				after, _ := reach(fn, wp, isExit, isReset, nil)
+				if before != nil && after != nil {
+					missing = field
+				}
+			}
+		}
+		if missing == "" {
+			r.ok("IDX-RESET", key, w.PosOf(wipes[0]), "RuleIndex and FactIndex are replaced on every path through the wipe")
+			continue
+		}
+		// every caller inside the type resets the field itself, around a call on a fresh receiver
+		callersOK := true
+		ncall := 0
+		for _, e := range w.Callers(fn) {
+			cf := e.Caller.Func
+			if isTestFile(w, cf) {
+				continue
+			}
+			ncall++
+			if !resets(cf, missing) {
+				callersOK = false
+			}
+		}
+		if ncall > 0 && callersOK {
+			r.ok("IDX-RESET", key, w.PosOf(wipes[0]), missing+" is replaced by every caller")
+		} else {
+			r.violation("IDX-RESET", key, w.PosOf(wipes[0]), "the fact map is replaced by an empty one but "+missing+" is not (on some path, and not by every caller): ids of removed rules stay in the index")
+		}
+	}
+	if count == 0 {
+		r.exempt("IDX-RESET", "type="+owner, w.Pos(n.Obj().Pos()), "no function stores a fresh map into IdToFact: shape not recognised, not decided")
+	}
+}
+
+// CACHE-GET-OR-CREATE (C17): a new cache entry is published only where the table holds none.
+func ruleCacheGetOrCreate(w *World, r *Report) {
+	r.Rule("CACHE-GET-OR-CREATE", "get-or-create on the location-cache table is decided by presence: in CachedLocations.Open the store of a newly allocated entry into `locs` is reachable only on the edge on which a comma-ok lookup of `locs` (in the same function, i.e. the same critical section) found no entry.  Deciding by `the entry's location is nil` instead takes an entry that was published but is not loaded yet (its creator releases the table lock before it takes the entry lock) for `no entry`: a second first-request publishes a second entry and loads a second instance, and the first request's acknowledged writes go to an instance nobody will see again", 1)
+	fn := w.Method("sys", "CachedLocations", "Open")
+	key := "fn=" + fname(fn)
+	isLocs := func(v ssa.Value) bool {
+		n, f, _, ok := loadedField(v)
+		return ok && typeKey(n) == "sys.CachedLocations" && f == "locs"
+	}
+	var publish []ssa.Instruction
+	allInstrs(fn, func(in ssa.Instruction) {
+		mu, ok := in.(*ssa.MapUpdate)
+		if !ok || !isLocs(mu.Map) {
+			return
+		}
+		if isFreshAt(mu.Value, in) {
+			publish = append(publish, in)
+		}
+	})
+	if len(publish) == 0 {
+		r.exempt("CACHE-GET-OR-CREATE", key, w.Pos(fn.Pos()), "Open does not store a newly allocated entry into the table: shape not recognised, not decided")
+		return
+	}
+	// edges on which a comma-ok lookup of locs reports "present"
+	present := map[bedge]bool{}
+	n := 0
+	for _, b := range fn.Blocks {
+		if len(b.Instrs) == 0 {
+			continue
+		}
+		ifi, ok := b.Instrs[len(b.Instrs)-1].(*ssa.If)
+		if !ok {
+			continue
+		}
+		ct, ok := decodeIf(ifi)
+		if !ok {
+			continue
+		}
+		ex, ok := resolveSpill(ct.V).(*ssa.Extract)
+		if !ok || ex.Index != 1 {
+			continue
+		}
+		lk, ok := ex.Tuple.(*ssa.Lookup)
+		if !ok || !lk.CommaOk || !isLocs(lk.X) {
+			continue
+		}
+		n++
+		if ct.TrueWhen == "true" {
+			present[bedge{b, 0}] = true
+		} else if ct.TrueWhen == "false" {
+			present[bedge{b, 1}] = true
+		}
+	}
+	// with the "absent" edges deleted (only "present" outcomes remain) the publication must be unreachable
+	absent := map[bedge]bool{}
+	for e := range present {
+		absent[bedge{e.b, 1 - e.i}] = true
+	}
+	isPublish := func(x ssa.Instruction) bool {
+		for _, p := range publish {
+			if x == p {
+				return true
+			}
+		}
+		return false
+	}
+	if n == 0 {
+		r.violation("CACHE-GET-OR-CREATE", key, w.PosOf(publish[0]), "a new entry is published in the cache table without a test, in this critical section, of whether the table already holds an entry for the name: an entry that is still being loaded is replaced and the location is loaded twice")
+		return
+	}
+	if h, _ := reach(fn, nil, isPublish, nil, edgeFilterOf(absent)); h != nil {
+		r.violation("CACHE-GET-OR-CREATE", key, w.PosOf(h), "a new entry can be published although the table holds an entry for the name")
+		return
+	}
+	r.ok("CACHE-GET-OR-CREATE", key, w.PosOf(publish[0]), "published only on the not-present edge of the table lookup")
+}
